@@ -422,7 +422,7 @@ def _snapshot(world):
         label, traits = _app_constraints(world, owners, a)
         snap[aid] = {
             'server': a.server, 'expiry': a.placement_expiry, 'bl': a.blacklisted or _is_bl(world, a), 'renew': a.renew,
-            'unsched': a.unschedule,
+            'unsched': (world.unsched_spec(a.name) if hasattr(world, 'unsched_spec') else a.unschedule),
             'srv_state': srv.state.value if srv else None,
             'srv_since': _since(world, srv) if srv else None,
             'srv_since_lb': getattr(world, 'down_since_lb', {}).get(srv.name) if srv else None,
@@ -539,14 +539,18 @@ def monitors(world, pid, snap, queues, run, hist_tags):
         for a in cell.apps.values():
             if a.identity_group:
                 bygroup[a.identity_group].append(a)
+        gc_ = getattr(world, 'group_count', None)
         for gname, l_apps in bygroup.items():
             g = cell.identity_groups.get(gname)
+            cnt = None if g is None else g.count
+            if gc_ is not None and gc_(gname) is not None:
+                cnt = gc_(gname)             # the configured count, from the stored record
             held = collections.defaultdict(list)
             for a in l_apps:
                 if a.identity is not None:
                     held[a.identity].append(a.name)
-                    if g is None or a.identity >= g.count:
-                        H('identity-out-of-range', 'cycle', (a.name, a.identity, None if g is None else g.count))
+                    if cnt is None or a.identity >= cnt:
+                        H('identity-out-of-range', 'cycle', (a.name, a.identity, cnt))
                     if not a.server:
                         H('unplaced-holds-identity', 'cycle', (a.name, a.identity))
                 if a.server and a.identity is None and a.identity_group_ref is not None:
